@@ -220,7 +220,8 @@ void PropertyHDF5::uncertainty(const nix::none_t t) {
 
 
 bool PropertyHDF5::isValidEntity() const {
-    return dataset().referenceCount() > 0;
+    // see EntityHDF5::isValidEntity: valid = still reachable from the root of the file
+    return dataset().referenceCount() > 0 && dataset().isLinked();
 }
 
 
